@@ -233,6 +233,14 @@ class Effects:
         for n in ast.walk(fi.node):
             if isinstance(n, ast.Assign) and len(n.targets) == 1 and isinstance(n.targets[0], ast.Name):
                 c = self._container_of(fi, ft, n.value, {})
+                if c is None and isinstance(n.value, (ast.IfExp, ast.BoolOp)):
+                    # v = X.children if X else []  /  v = X.children or []: v may be the node's own container
+                    arms = [n.value.body, n.value.orelse] if isinstance(n.value, ast.IfExp) else list(n.value.values)
+                    for arm in arms:
+                        c2 = self._container_of(fi, ft, arm, {})
+                        if c2 is not None and c2[0] not in ("$param",):
+                            c = c2
+                            break
                 if c is not None and c[0] not in ("$param",):
                     aliases[n.targets[0].id] = c
                 elif isinstance(n.value, ast.Call):
